@@ -490,6 +490,19 @@ def _wrap_puml_parse():
         try:
             if "C06" in HUB.judges:
                 _judge_parse(file_path, res, exc)
+                if res is not None:
+                    # what a caller does with the result: look up the arrows of every component (a component without
+                    # outgoing arrows may be missing as a key).  Looking must not change what was parsed.
+                    before = {k: set(v) for k, v in res.dependencies.items()}
+                    for c in list(res.all_modules):
+                        try:
+                            res.dependencies[c]
+                        except KeyError:
+                            pass
+                    after = {k: set(v) for k, v in res.dependencies.items()}
+                    HUB.acc.count("parse_results_read_by_subscript")
+                    if before != after:
+                        HUB.violation("C06", "parse-result-changed-by-reading-it", "subscripting the parsed dependencies with a component changed them", {"file": str(file_path), "added_keys": sorted(set(after) - set(before))})
         except Exception as e:  # noqa: BLE001
             HUB.acc.mark_inconclusive(f"judge_parse crashed: {type(e).__name__}: {e}")
         if exc is not None:
@@ -551,9 +564,27 @@ def _judge_parse(path, res, exc) -> None:
 
 
 def snapshot_diagram_rule(dr) -> dict:
+    """What the caller configured ON THIS OBJECT, replayed from its own call history (a copy starts with the history of
+    its original): the last accepted from_file / with_base_module arguments and the constructor's mode.  Only objects the
+    monitor has not seen being configured are read through their attributes."""
+    d = dr.__dict__
     # a driver that constructed the rule WITHOUT the mode argument says so: the documented default is should-only
-    mode = dr.__dict__.get("_pta_intent_should_only", dr._should_only_rule)
-    return {"file": str(dr._file_path) if dr._file_path is not None else None, "base": dr._name_relative_to_root, "should_only": bool(mode)}
+    mode = d.get("_pta_intent_should_only", d.get("_pta_ctor_should_only", d.get("_should_only_rule")))
+    file, base, seen_file, seen_base = None, None, False, False
+    for e in trace_of(dr):
+        if not isinstance(e, list) or e[2] != "ok" or not e[1]:
+            continue
+        if e[0] == "from_file":
+            file, seen_file = e[1][0], True
+        elif e[0] == "with_base_module":
+            base, seen_base = e[1][0], True
+    if not seen_file:
+        file = str(dr._file_path) if dr._file_path is not None else None
+    if not seen_base and not seen_file:
+        base = dr._name_relative_to_root
+    if mode is None:
+        mode = dr._should_only_rule
+    return {"file": file, "base": base, "should_only": bool(mode)}
 
 
 def _wrap_diagram_rule():
@@ -561,6 +592,20 @@ def _wrap_diagram_rule():
 
     for n in ("from_file", "with_base_module", "base_module_included_in_module_names"):
         _wrap_fluent(DiagramRule, n)
+    init = DiagramRule.__dict__["__init__"]
+    init_sig = inspect.signature(init)
+
+    @functools.wraps(init)
+    def __init__(self, *args, **kwargs):
+        init(self, *args, **kwargs)
+        try:
+            ba = init_sig.bind(self, *args, **kwargs)
+            ba.apply_defaults()
+            self.__dict__["_pta_ctor_should_only"] = bool(ba.arguments.get("should_only_rule"))
+        except Exception:  # noqa: BLE001
+            pass
+
+    DiagramRule.__init__ = __init__
     orig = DiagramRule.__dict__["assert_applies"]
 
     @functools.wraps(orig)
